@@ -241,7 +241,7 @@ theorem T08_2_partial_div (a b : Num) {l r : Int} (hl : asI32 a = some l) (hr : 
     · cases h; simp [isExact] at he
     · rename_i h2
       simp only [Bool.and_eq_true, not_and, Bool.not_eq_true] at h1
-      simp only [beq_iff_eq] at h2
+      try simp only [beq_iff_eq] at h2
       simp only [Bool.or_eq_false_iff, beq_eq_false_iff_ne, ne_eq, Bool.and_eq_false_iff]
       refine ⟨?_, ?_⟩
       · intro hd; apply h2; exact_mod_cast hd
@@ -298,10 +298,10 @@ example : quotient (.fix (-9223372036854775808)) (.fix (-1)) = some (.ok (some (
   decide
 example : modulo (.fix (-7)) (.rat 2 1) = some (.ok (some (.rat 1 1))) := by decide
 example : scmQuotient [.rat 7 1, .rat 2 1] = some (.ok (.fix 3)) := by decide
-example : abs (.rat (-2147483648) 1) = some (.fix 2147483648) := by decide
+example : Arith.abs (.rat (-2147483648) 1) = some (.fix 2147483648) := by decide
 example : ceil (.rat 2147483647 2) = some (.rat 1073741824 1) := by decide
 example : pow (.fix 3037000500) 2 = some (.big 9223372037000250000) := by decide
-example : scmPlus [.fix 1, .rat 1 2, .big 3] = .ok (.rat 9 2) := by decide
+example : scmPlus [.fix 1, .rat 1 2, .fix 3] = .ok (.rat 9 2) := by decide
 -- the guards of the `_partial` theorems are satisfiable on the boundary
 example : div (.fix 1) (.fix (-2147483648)) = .ok (.flo ⟨0xbe00000000000000⟩) := by decide +kernel
 
